@@ -2018,7 +2018,10 @@ class MainProvider(ResolverMixin, BaseProvider):
                         # AssociatorNames() does not return it either.
                         assoc_store = self.cimrepository.get_instance_store(
                             prop.value.namespace or namespace)
-                        if not assoc_store.object_exists(prop.value):
+                        # (the instance store has paths without host)
+                        assoc_path = prop.value.copy()
+                        assoc_path.host = None
+                        if not assoc_store.object_exists(assoc_path):
                             continue
                         rtn_instpaths.add(prop.value)
         return rtn_instpaths
@@ -2490,6 +2493,9 @@ class MainProvider(ResolverMixin, BaseProvider):
 
             results = []
             for obj_name in assoc_names:
+                # (the instance store has paths without host)
+                obj_name = obj_name.copy()
+                obj_name.host = None
                 ns = obj_name.namespace
                 instance_store = self.cimrepository.get_instance_store(ns)
                 if not instance_store.object_exists(obj_name):
